@@ -8,6 +8,7 @@ import (
 
 	"github.com/IrineSistiana/connpool"
 	"github.com/IrineSistiana/mosproxy/internal/dnsmsg"
+	"github.com/IrineSistiana/mosproxy/internal/verifhook"
 	"github.com/rs/zerolog"
 )
 
@@ -90,6 +91,9 @@ func (t *PipelineTransport) ExchangeContext(ctx context.Context, m []byte) (*dns
 	retry := 0
 	errs := make([]error, 0)
 	for {
+		if verifhook.On {
+			verifhook.Gate("pt.get", t, ctx, retry)
+		}
 		conn, newConn, err := t.getConn(ctx)
 		if err != nil {
 			errs = append(errs, err)
@@ -97,6 +101,9 @@ func (t *PipelineTransport) ExchangeContext(ctx context.Context, m []byte) (*dns
 		}
 
 		resp, err := conn.exchange(ctx, m)
+		if verifhook.On {
+			verifhook.Gate("pt.rel", t, ctx, conn)
+		}
 		t.releaseConn(conn)
 		if err != nil {
 			errs = append(errs, err)
